@@ -634,13 +634,16 @@ class HistogramBase(abc.ABC):
             axis=axis,
         )
         if wide_dtype != dtype:
-            type_info = np.iinfo(dtype) if dtype.kind in "iu" else np.finfo(dtype)
-            if max(new_frequencies.max(initial=0), new_errors2.max(initial=0)) > type_info.max:
+            with np.errstate(over="ignore", invalid="ignore"):
+                narrow_frequencies = new_frequencies.astype(dtype)
+                narrow_errors2 = new_errors2.astype(dtype)
+            if np.array_equal(
+                narrow_frequencies, new_frequencies, equal_nan=True
+            ) and np.array_equal(narrow_errors2, new_errors2, equal_nan=True):
+                new_frequencies, new_errors2 = narrow_frequencies, narrow_errors2
+            else:
                 # Keep the exact sums, in the wider type
                 self.set_dtype(wide_dtype)
-            else:
-                new_frequencies = new_frequencies.astype(dtype)
-                new_errors2 = new_errors2.astype(dtype)
         self._frequencies = new_frequencies
         self._errors2 = new_errors2
 
